@@ -12,7 +12,7 @@ import numpy as np
 import z3
 
 from pyvc import sym
-from pyvc.sym import lift, SComplex
+from pyvc.sym import lift, SComplex, cfrac_eq
 from pyvc.interp import PyRaise
 from pyvc.oblig import obligation, verify, bounded, exhaustive, Goal, merge
 from .common import stable_rng, quick
@@ -253,6 +253,162 @@ def ob_moves(cls, move):
                 goals.append(Goal("sector %d moved with the cell" % k, now == secs0[k - 1] + delta))
         return goals
     return verify(body, check_side=False)
+
+
+def _ideal_hex_lattice(n):
+    """the hexagonal layout of the documentation, written independently (exact up to sqrt 3 evaluated with 50 digits): centre, first
+    ring at distance 2h and angles 30 + 60k degrees, second ring alternating corner (3 r, angle 60k) / edge (4h, angle 30 + 60k)"""
+    import mpmath as mp
+    mp.mp.dps = 50
+    h = mp.sqrt(3) / 2
+    pts = [mp.mpc(0)]
+    for k in range(6):
+        pts.append(mp.mpc(2 * h) * mp.expjpi(mp.mpf(30 + 60 * k) / 180))
+    for k in range(12):
+        d = 3 if k % 2 == 0 else 4 * h
+        pts.append(mp.mpc(d) * mp.expjpi(mp.mpf(30 * k) / 180))
+    return pts[:n]
+
+
+def _const_complex(v):
+    """the exact rational value of a symbolic constant (no free variables)"""
+    v = sym.to_complex(v)
+    out = []
+    for part in (v.re, v.im):
+        t = z3.simplify(lift(part).t)
+        if not z3.is_rational_value(t) and not z3.is_int_value(t):
+            return None
+        out.append(t.as_fraction() if z3.is_rational_value(t) else t.as_long())
+    return out
+
+
+@obligation("cluster/layout_symbolic", params=[{"type": "simple", "n": n} for n in (2, 3, 7, 19)] + [{"type": "square", "n": n} for n in (1, 4, 9)]
+            + [{"type": "3sec", "n": n} for n in (3, 7)] + [{"type": "square", "n": 4, "after": "simple"}, {"type": "simple", "n": 4, "after": "square"},
+               {"type": "simple", "n": 4, "after": "3sec"}], timeout=300,
+            desc="Cluster(cell_radius r, n, pos p, type, rotation t) with symbolic r > 0, p and t: every cell has radius r (squares: side r), rotation t and id "
+                 "index+1, and its centre is EXACTLY p + e^{jt} r (N_i - mean N) where N is the unit layout the routine computes for r = 1, "
+                 "t = 0 (so cells are congruent, the cluster is centred at p, and rotation/scale/translation act rigidly); the unit layout is "
+                 "within 1e-14 of the hexagonal lattice (neighbours 2 apothems = sqrt 3 apart) resp. exactly the integer square grid (one "
+                 "side apart); cell positions are not shared with the class-level layout table (a second cluster is unaffected; a cluster of ANOTHER "
+                 "cell type with the same number of cells laid out earlier in the process changes nothing); 3-sector cells: every sector is "
+                 "the hexagon of radius r/sqrt 3 at cell centre + e^{jt} r S_k with rotation t - 30")
+def ob_cluster_layout(type, n, after=None):
+    def body(c, it):
+        from pyphysim.cell import cell as cm
+        r, t = c.var("r", "real"), c.var("t", "real")
+        p = c.var("p", "complex")
+        c.assume(r > 0)
+        if after is not None:          # another kind of cluster with the same number of cells was laid out earlier in this process
+            it.call(cm.Cluster, [lift(3), n, 0, None, after, 0.0])
+        unit = it.call(cm.Cluster._calc_cell_positions, [lift(1), n, type, None])
+        N = [_const_complex(unit[i, 0]) for i in range(n)]
+        goals = [Goal("unit layout is a table of constants", all(x is not None for x in N))]
+        if not goals[0].cond:
+            return goals
+        Nc = [complex(float(a), float(b)) for a, b in N]
+        if type == "square":
+            k = int(round(math.sqrt(n)))
+            want = sorted((x - (k - 1) / 2.0, y - (k - 1) / 2.0) for x in range(k) for y in range(k))
+            got = sorted((float(a), float(b)) for a, b in N)
+            goals.append(Goal("unit layout == integer grid centred at 0 (one side apart), exactly", got == want))
+        else:
+            import mpmath as mp
+            ideal = _ideal_hex_lattice(n)
+            mean = sum(ideal) / n
+            err = max(abs(mp.mpc(float(a), float(b)) - (q - mean)) for (a, b), q in zip(N, ideal))
+            goals.append(Goal("unit layout within 1e-14 of the hexagonal lattice (max error %s)" % mp.nstr(err, 3), err <= mp.mpf("1e-14")))
+        cl = it.call(cm.Cluster, [r, n, p, None, type, t])
+        cells = it.getattr(cl, "_cells")
+        goals.append(Goal("n cells", len(cells) == n))
+        th = np.pi * t / 180.0
+        e = sym.SComplex(lift(th).cos(), lift(th).sin())
+        for i, cell in enumerate(cells):
+            pos = sym.to_complex(it.getattr(cell, "pos"))
+            spec = sym.to_complex(p) + e * (sym.SComplex(lift(N[i][0]), lift(N[i][1])) * r)
+            goals.append(Goal("cell %d centre == p + e^{jt} r N_%d" % (i + 1, i), cfrac_eq(pos, spec)))
+            rad_spec = r if type != "square" else r * lift(math.sqrt(2.0)) / 2      # a square cell's "radius" is its half diagonal
+            goals.append(Goal("cell %d size, rotation, id" % (i + 1),
+                              (lift(it.getattr(cell, "radius")) == rad_spec) & cfrac_eq(it.getattr(cell, "rotation"), t) & lift(it.getattr(cell, "id") == i + 1)))
+        if type == "3sec":
+            import mpmath as mp
+            c1 = it.call(cm.Cell3Sec, [0, lift(1), None, 0.0])
+            S = [_const_complex(it.getattr(it.getattr(c1, "_sec%d" % k), "pos")) for k in (1, 2, 3)]
+            rho = _const_complex(it.getattr(c1, "secradius"))
+            ok = all(x is not None for x in S) and rho is not None
+            goals.append(Goal("unit sector layout is a table of constants", ok))
+            if ok:
+                ideal = [mp.expjpi(mp.mpf(a) / 180) / mp.sqrt(3) for a in (210, 330, 90)]
+                err = max([abs(mp.mpc(float(a), float(b)) - q) for (a, b), q in zip(S, ideal)] + [abs(mp.mpf(float(rho[0])) - 1 / mp.sqrt(3))])
+                goals.append(Goal("unit sectors: centres at distance 1/sqrt(3) and angles 210/330/90 degrees, sector radius 1/sqrt(3) "
+                                  "(max error %s)" % mp.nstr(err, 3), err <= mp.mpf("1e-15")))
+                for i, cell in enumerate(cells):
+                    cpos = sym.to_complex(it.getattr(cell, "pos"))
+                    for k in (1, 2, 3):
+                        sec = it.getattr(cell, "_sec%d" % k)
+                        spec = cpos + e * (sym.SComplex(lift(S[k - 1][0]), lift(S[k - 1][1])) * r)
+                        goals.append(Goal("cell %d sector %d: centre == cell centre + e^{jt} r S_%d, radius r/sqrt 3, rotation t - 30" % (i + 1, k, k),
+                                          cfrac_eq(it.getattr(sec, "pos"), spec) & (lift(it.getattr(sec, "radius")) == r * lift(rho[0]))
+                                          & cfrac_eq(it.getattr(sec, "rotation"), t - 30)))
+        if after is not None:
+            return goals
+        cl2 = it.call(cm.Cluster, [lift(2), n, 0, None, type, 0.0])
+        for i, cell in enumerate(it.getattr(cl2, "_cells")):
+            pos = sym.to_complex(it.getattr(cell, "pos"))
+            goals.append(Goal("second cluster (r = 2, no rotation): cell %d at 2 N_%d" % (i + 1, i),
+                              cfrac_eq(pos, sym.SComplex(lift(N[i][0]) * 2, lift(N[i][1]) * 2))))
+        return goals
+
+    def rp(mv):
+        from pyphysim.cell import cell as cm
+        try:
+            for (rad, pos, rot) in ((1.0, 0j, 0.0), (2.5, 3 - 1j, 40.0), (0.3, -7 + 2j, -115.0), (1.0, 0j, 0.0)):
+                cl = cm.Cluster(rad, n, pos, None, type, rot)
+                P = np.array([x.pos for x in cl._cells])
+                cl0 = cm.Cluster(1.0, n, 0j, None, type, 0.0)
+                N0 = np.array([x.pos for x in cl0._cells])
+                want = pos + np.exp(1j * np.pi * rot / 180) * rad * N0
+                if not (np.abs(P - want).max() <= 1e-9 * max(1.0, abs(pos), rad)):
+                    return {"confirmed": True, "cell_radius": rad, "pos": str(pos), "rotation": rot, "type": type, "n": n,
+                            "cell centres": [str(x) for x in P], "expected (rigid image of the unit layout)": [str(x) for x in want]}
+                if not (abs(P.mean() - pos) <= 1e-9 * max(1.0, abs(pos), rad)):
+                    return {"confirmed": True, "what": "cluster not centred at its position", "centroid": str(P.mean()), "pos": str(pos)}
+            return {"confirmed": False, "note": "real clusters are rigid images of the unit layout"}
+        except Exception as ex:
+            return {"confirmed": False, "error": "replay crashed: %r" % (ex,)}
+    return verify(body, check_side=False, timeout_ms=60000, replay=rp)
+
+
+@obligation("hexagon/vertices_regular_and_rigid",
+            desc="Hexagon(pos, r, rotation) with symbolic pos, r > 0 and rotation: the six vertices are EXACTLY pos + e^{j rot} r U_k where U is "
+                 "what the routine gives for the unit hexagon at the origin, and U is within 1e-15 of the regular hexagon's corners "
+                 "e^{j(240 + 60 k) deg} (so every vertex is r from the centre and consecutive vertices are r apart); height == r sqrt(3)/2")
+def ob_hexagon():
+    def body(c, it):
+        from pyphysim.cell import shapes
+        import mpmath as mp
+        mp.mp.dps = 50
+        r, t = c.var("r", "real"), c.var("t", "real")
+        p = c.var("p", "complex")
+        c.assume(r > 0)
+        h1 = it.call(shapes.Hexagon, [0, lift(1), 0])
+        U = [_const_complex(v) for v in it.call(it.getattr(h1, "_get_vertex_positions"), [])]
+        goals = [Goal("unit hexagon is a table of six constants", len(U) == 6 and all(u is not None for u in U))]
+        if not goals[0].cond:
+            return goals
+        err = max(abs(mp.mpc(float(a), float(b)) - mp.expjpi(mp.mpf(240 + 60 * k) / 180)) for k, (a, b) in enumerate(U))
+        goals.append(Goal("unit vertices within 1e-15 of the regular hexagon (max error %s)" % mp.nstr(err, 3), err <= mp.mpf("1e-15")))
+        hx = it.call(shapes.Hexagon, [p, r, t])
+        V = it.getattr(hx, "vertices")
+        th = np.pi * t / 180.0
+        e = sym.SComplex(lift(th).cos(), lift(th).sin())
+        goals.append(Goal("six vertices", np.shape(V) == (6,)))
+        for k in range(min(6, len(V))):
+            spec = sym.to_complex(p) + e * (sym.SComplex(lift(U[k][0]), lift(U[k][1])) * r)
+            goals.append(Goal("vertex %d == pos + e^{j rot} r U_%d" % (k, k), cfrac_eq(V[k], spec)))
+        hh = lift(it.getattr(hx, "height"))
+        goals.append(Goal("height == r * (binary64 sqrt(3))/2", hh * 2 == r * lift(math.sqrt(3.0))))
+        return goals
+    return verify(body, check_side=False, timeout_ms=60000)
 
 
 @obligation("native/shapes_containment_and_border", kind="bounded", timeout=1500,
